@@ -66,6 +66,7 @@ type Op struct {
 
 type Case struct {
 	Rules      []RuleJ             `json:"rules"`
+	RuleStyle  int                 `json:"rule_style,omitempty"` // 0 = Go values, 1 = YAML legacy syntax where possible, 2 = YAML matchers syntax (yamlcfg_test.go)
 	Lsets      []map[string]string `json:"lsets"`
 	ProviderGC int64               `json:"provider_gc"`
 	Pre        int                 `json:"pre"`                  // the first Pre ops run before the inhibitor is started (it slurps the result)
@@ -73,6 +74,8 @@ type Case struct {
 	// Race != nil: not a history but a run of the concurrent engine (race_test.go) with these parameters
 	Race *RaceParams `json:"race,omitempty"`
 	Ops  []Op        `json:"ops"`
+	// GCRace != nil: a run of the refire-during-GC engine (gcrace_test.go) with these parameters
+	GCRace *GCRaceParams `json:"gcrace,omitempty"`
 	// Hang != nil: a run of the liveness engine (hang_test.go) with these parameters
 	Hang *HangParams `json:"hang,omitempty"`
 	// Scale != nil: a generated large-class history (scale_test.go) with these parameters
@@ -437,6 +440,12 @@ func genCase(r *vh.Rand, maxOps int) Case {
 		}
 		c.Rules = append(c.Rules, RuleJ{Src: genMatchers(r), Tgt: genMatchers(r), Equal: append([]string{}, vh.Pick(r, equalPool)...)})
 	}
+	c.RuleStyle = vh.Pick(r, []int{styleStructs, styleLegacy, styleLegacy, styleLegacy, styleNew, styleNew})
+	if len(c.Rules) > 1 && r.Chance(1, 3) { // several rules over the same equal list
+		for i := range c.Rules {
+			c.Rules[i].Equal = append([]string{}, c.Rules[0].Equal...)
+		}
+	}
 	nl := r.Range(3, 6)
 	seen := map[string]bool{}
 	for tries := 0; len(c.Lsets) < nl; tries++ {
@@ -645,6 +654,25 @@ func runCase(t *testing.T, c *Case) result {
 					}
 				}
 			}
+		}
+		// the rules reach the inhibitor through a configuration file loaded by config.Load
+		if c.RuleStyle != styleStructs {
+			loaded, legacyRules, wrong, err := loadRules(c.Rules, c.RuleStyle)
+			switch {
+			case err != nil:
+				res.tags["rules-as-go-values(config-rejected-the-yaml)"]++
+			default:
+				cfg = loaded
+				res.tags[fmt.Sprintf("rules-through-config.Load(style=%d)", c.RuleStyle)]++
+				if legacyRules >= 2 {
+					res.tags["config-with-2+-legacy-syntax-rules"]++
+				}
+				if wrong != "" {
+					violate("configured-inhibit-rule-not-in-force", wrong)
+				}
+			}
+		} else {
+			res.tags["rules-as-go-values"]++
 		}
 		lsets := make([]model.LabelSet, len(c.Lsets))
 		fpIdx := map[model.Fingerprint]int{}
@@ -1201,6 +1229,8 @@ func TestCheck(t *testing.T) {
 		}
 		if c.Pipe != nil {
 			// handled by the pipeline part below
+		} else if c.GCRace != nil {
+			judgeGCRace(t, run, *c.GCRace)
 		} else if c.Hang != nil {
 			judgeHang(t, run, *c.Hang)
 		} else if c.Race != nil {
@@ -1247,6 +1277,8 @@ func TestCheck(t *testing.T) {
 		judgeRace(t, run, racePlan(env))
 		// liveness engine (worker process + watchdog): Mutes keeps answering while the source caches are collected
 		judgeHang(t, run, hangPlan(env))
+		// sources firing again at the very instant the rule caches are collected
+		judgeGCRace(t, run, gcRacePlan(env))
 	}
 	if err := run.Finish("random rule sets (1-3 rules over sev/cluster/inst/zone, equal lists incl. labels missing on one side; one third of the cases: 2-3 equal labels with values that collide under concatenation) and histories of Put (fresh, refreshed with varied end times, resolved, no end), time passing (time-outs), inhibitor GC ticks, provider GC, restarts of the subscriber generation (inhibitor + a dispatcher-like second subscriber) with updates arriving during the load, subscriber lifecycles over several generations with provider GC in between, over 3-6 label sets sharing equal-values; after every op Mutes+marker for every label set, cache/index content, MuteStage; plus a judged concurrent engine outside synctest (2-4 goroutines Put conflicting versions of the same source alerts at once in large batches against a running inhibitor and plain subscribers, one slow; afterwards every subscriber's last delivered version is the stored one and the running inhibitor agrees with a fresh one loaded from the provider and with the rule over the provider's unresolved alerts) and a liveness engine in a worker process under a watchdog (goroutines hammering Mutes in real time while virtual time drives the rule caches' 15-minute GC with resolved sources to collect); non-trivial = some label set muted and some not muted during the history; distinct by full history text"); err != nil {
 		t.Fatal(err)
